@@ -5,7 +5,7 @@
 From Coq Require Import ZArith List Bool Lia Sorted.
 From Coq Require PrimFloat.
 Import ListNotations.
-From SZ Require Import Lib.Py Gen.Utils Gen.Reader Gen.Header Gen.Headers Gen.Producer Gen.Routes Spec.Container.
+From SZ Require Import Lib.Py Gen.Utils Gen.Reader Gen.Header Gen.Headers Gen.Producer Gen.Window Gen.Routes Spec.Container.
 From SZ Require Import Model.Writer Model.Headers Model.HeaderW Model.Routes.
 From SZ Require Import Proofs.PyLemmas Proofs.Layout Proofs.Writer Proofs.Headers Proofs.ContainerW.
 Open Scope Z_scope.
@@ -258,55 +258,83 @@ Lemma ztv_values n_samples E :
   ztv_of n_samples E (TVTrunc (RMul (RInt 1000) RZinc)) = Model.Geometry.f_trunc_Z (PrimFloat.mul (f_of_Z 1000) (re_zinc E)).
 Proof. repeat split. Qed.
 
-(* ================================================================ 5. the ZGY file and its read-back *)
+(* ================================================================ 5. the ZGY file and its read-back, for any window *)
+(* the crop of get_blank_header_info keeps exactly the window: rows wi0 .. wi1-1, columns wx0 .. wx1-1 of the whole-file grid *)
+Lemma win_ok_unpack w n_il n_xl : win_ok w n_il n_xl = true ->
+  0 <= wi0 w < wi1 w /\ wi1 w <= n_il /\ 0 <= wx0 w < wx1 w /\ wx1 w <= n_xl.
+Proof. unfold win_ok. rewrite !andb_true_iff, !Z.leb_le, !Z.ltb_lt. lia. Qed.
+Lemma crop_facts w n_il n_xl : win_ok w n_il n_xl = true ->
+  crop_r0 w = wi0 w /\ crop_c0 w = wx0 w /\
+  crop_rows w (zgy_grid_rows n_il n_xl) = wi1 w - wi0 w /\ crop_cols w (zgy_grid_cols n_il n_xl) = wx1 w - wx0 w /\
+  win_nil w = wi1 w - wi0 w /\ win_nxl w = wx1 w - wx0 w.
+Proof.
+  intro OK. apply win_ok_unpack in OK.
+  unfold crop_r0, crop_c0, crop_rows, crop_cols, crop_r0, crop_c0, crop_args, win_nil, win_nxl, g_ilines, g_xlines,
+    w_geom_ilines, w_geom_xlines, rng_first, rng_last, rng_len, zgy_crop_row_lo, zgy_crop_row_hi, zgy_crop_col_lo, zgy_crop_col_hi,
+    zgy_grid_rows, zgy_grid_cols.
+  repeat split; lia.
+Qed.
+Lemma whole_ok n_il n_xl : 1 <= n_il -> 1 <= n_xl ->
+  win_ok (whole n_il n_xl) n_il n_xl = true /\ wi0 (whole n_il n_xl) = 0 /\ wi1 (whole n_il n_xl) = n_il /\
+  wx0 (whole n_il n_xl) = 0 /\ wx1 (whole n_il n_xl) = n_xl.
+Proof.
+  intros A B. unfold whole, w_detect_geom, win_of, win_ok. cbn [wi0 wi1 wx0 wx1].
+  repeat split; try reflexivity. rewrite !andb_true_iff, !Z.leb_le, !Z.ltb_lt. lia.
+Qed.
+(* the array length the windowed header states (make_header: Gen/Header.v mh_field_60, Gen/Window.v w_hdr_hel, Gen/Headers.v
+   hx_hel_3d all say 4 bytes per window trace) *)
+Lemma hel_agree xlines ilines gi0 gx0 tc rn rd ns g_ntr bs0 bs1 bs2 na ve gni gnx :
+  hx_hel_3d gnx gni = w_hdr_hel xlines ilines gi0 gx0 gni gnx tc /\
+  hx_hel_3d gnx gni = mh_field_60 rn rd ns gni gnx g_ntr tc bs0 bs1 bs2 na ve false false.
+Proof. split; reflexivity. Qed.
+
 Section ZgyFile.
-Variables (fields : list Z) (tv : ztv -> Z) (arr : Z -> Z -> Z) (n_il n_xl ndb : Z).
+Variables (fields : list Z) (tv : ztv -> Z) (arr : Z -> Z -> Z) (n_il n_xl : Z) (w : win) (ndb : Z).
 Hypothesis Hwf : wf_fields fields = true.
 Hypothesis Hin : forall k, In k zgy_keys -> In k fields.
-Hypothesis Hnil : 1 <= n_il.
-Hypothesis Hnxl : 1 <= n_xl.
+Hypothesis Hw : win_ok w n_il n_xl = true.
 
-Lemma grid_words : zgy_grid_rows n_il n_xl * zgy_grid_cols n_il n_xl = n_il * n_xl.
-Proof. unfold zgy_grid_rows, zgy_grid_cols. ring. Qed.
-
-Lemma planned_zgy : planned fields (zgy_write fields tv arr n_il n_xl ndb) (zgy_fn tv) arr (n_il * n_xl) hx_wr_pad.
+Lemma planned_zgy : planned fields (zgy_wwrite fields tv arr n_il n_xl w ndb) (zgy_fn tv) arr (win_nil w * win_nxl w) hx_wr_pad.
 Proof.
   destruct (wf_fields_facts _ Hwf) as [Hasc [Hnd [Hpos Hlen]]].
-  unfold zgy_write. cbv zeta. rewrite zgy_table_of by assumption.
+  destruct (crop_facts w n_il n_xl Hw) as (_ & _ & CR & CC & NI & NX). pose proof (win_ok_unpack _ _ _ Hw) as U.
+  unfold zgy_wwrite. cbv zeta. rewrite zgy_table_of by assumption.
   constructor; cbn [f_nhb f_ndb f_hel f_count f_tracecount f_is3d f_nil f_nxl f_table f_footer]; try reflexivity.
   - apply hel_3d_eq.
-  - nia.
+  - rewrite NI, NX. nia.
   - intros f Hf. apply zgy_fn_kinds.
-  - rewrite grid_words. f_equal. rewrite zgy_selfs by assumption.
+  - rewrite CR, CC, NI, NX. f_equal. rewrite zgy_selfs by assumption.
     rewrite <- (proj1 headers_dict_keys). rewrite map_map. reflexivity.
 Qed.
 
-(* gen_trace_header(t)[f] on the file written by the ZGY route, both access paths of the reader *)
-Theorem zgy_readback la t f : 0 <= t < n_il * n_xl -> In f fields ->
-  read_field fields (zgy_write fields tv arr n_il n_xl ndb) la t f = Return (zgy_expected tv arr f t).
+(* gen_trace_header(t)[f] on the file written by the ZGY route, both access paths of the reader; t = trace of the WINDOW *)
+Theorem zgy_readback la t f : 0 <= t < win_nil w * win_nxl w -> In f fields ->
+  read_field fields (zgy_wwrite fields tv arr n_il n_xl w ndb) la t f = Return (zgy_expected tv arr f t).
 Proof.
   intros Ht Hf. destruct (wf_fields_facts _ Hwf) as [Hasc [Hnd [Hpos Hlen]]].
-  rewrite (planned_read fields _ (zgy_fn tv) arr (n_il * n_xl) hx_wr_pad); try assumption; try apply planned_zgy.
+  rewrite (planned_read fields _ (zgy_fn tv) arr (win_nil w * win_nxl w) hx_wr_pad); try assumption; try apply planned_zgy.
   - rewrite zgy_fn_inv by (apply Hpos; exact Hf). unfold zgy_expected.
     destruct (memZ f zgy_tbl_self_keys); reflexivity.
-  - unfold zgy_write. cbn [f_is3d f_tracecount f_nil f_nxl]. unfold hx_rd_structured. apply Z.eqb_refl.
-  - unfold zgy_write. cbn [f_tracecount]. lia.
+  - unfold zgy_wwrite. cbn [f_is3d f_tracecount f_nil f_nxl]. unfold hx_rd_structured. apply Z.eqb_refl.
+  - unfold zgy_wwrite. cbn [f_tracecount]. lia.
 Qed.
 
-(* the footer: exactly the four arrays of headers_dict, in that order, 4 bytes per grid trace each, at the padded stride *)
+(* the footer: exactly the four arrays of headers_dict, in that order, 4 bytes per WINDOW trace each = the array length the
+   header states, at the padded stride *)
 Theorem zgy_footer_layout :
-  let F := zgy_write fields tv arr n_il n_xl ndb in
-  f_count F = 4 /\ f_hel F = 4 * (n_il * n_xl) /\ f_tracecount F = n_il * n_xl /\
+  let F := zgy_wwrite fields tv arr n_il n_xl w ndb in
+  let G := (wi1 w - wi0 w) * (wx1 w - wx0 w) in
+  f_count F = 4 /\ f_hel F = 4 * G /\ f_tracecount F = G /\ Model.Headers.f_nil F = wi1 w - wi0 w /\ Model.Headers.f_nxl F = wx1 w - wx0 w /\
   map (fun s => match s with (pos, len, pd, _) => (pos, len, pd) end) (f_footer F)
-  = map (fun k => (4096 * 2 + 4096 * ndb + k * (4 * (n_il * n_xl) + hx_wr_pad (4 * (n_il * n_xl))), 4 * (n_il * n_xl),
-                   hx_wr_pad (4 * (n_il * n_xl)))) [0; 1; 2; 3] /\
-  hx_rd_padded (f_hel F) = 4 * (n_il * n_xl) + hx_wr_pad (4 * (n_il * n_xl)).
+  = map (fun k => (4096 * 2 + 4096 * ndb + k * (4 * G + hx_wr_pad (4 * G)), 4 * G, hx_wr_pad (4 * G))) [0; 1; 2; 3] /\
+  hx_rd_padded (f_hel F) = 4 * G + hx_wr_pad (4 * G).
 Proof.
-  cbv zeta. unfold zgy_write. cbn [f_count f_hel f_tracecount f_footer].
-  split; [apply zgy_array_count; assumption|]. split; [apply hel_3d_eq|]. split; [reflexivity|].
-  rewrite grid_words. split.
+  cbv zeta. destruct (crop_facts w n_il n_xl Hw) as (_ & _ & CR & CC & NI & NX). pose proof (win_ok_unpack _ _ _ Hw) as U.
+  unfold zgy_wwrite. cbn [f_count f_hel f_tracecount f_footer Model.Headers.f_nil Model.Headers.f_nxl]. rewrite CR, CC, NI, NX.
+  split; [apply zgy_array_count; assumption|]. split; [rewrite hel_3d_eq; reflexivity|]. split; [reflexivity|].
+  split; [reflexivity|]. split; [reflexivity|]. split.
   - cbn [zgy_headers_dict map write_footer fst]. unfold hx_header_blocks.
-    set (L := 4 * (n_il * n_xl)). set (P := hx_wr_pad L).
+    set (L := 4 * ((wi1 w - wi0 w) * (wx1 w - wx0 w))). set (P := hx_wr_pad L).
     repeat (apply (f_equal2 cons); [f_equal; f_equal; lia|]). reflexivity.
   - rewrite hel_3d_eq. symmetry. apply stride_agree. nia.
 Qed.
@@ -340,30 +368,85 @@ Hypothesis LIN : lin_exact lin.
 Variables a_il d_il n_il a_xl d_xl n_xl : Z.
 Hypothesis Hnil : 2 <= n_il.
 Hypothesis Hnxl : 2 <= n_xl.
+Variable w : win.
+Hypothesis Hw : win_ok w n_il n_xl = true.
 Let il := arith_lax a_il d_il n_il.
 Let xl := arith_lax a_xl d_xl n_xl.
+
+(* (i, x) = ordinals in the SOURCE; the word is counted in the window *)
+Theorem zgy_window_line_arrays i x : wi0 w <= i < wi1 w -> wx0 w <= x < wx1 w ->
+  zgy_warray lin rnd il xl w 189 ((i - wi0 w) * (wx1 w - wx0 w) + (x - wx0 w)) = a_il + d_il * i /\
+  zgy_warray lin rnd il xl w 193 ((i - wi0 w) * (wx1 w - wx0 w) + (x - wx0 w)) = a_xl + d_xl * x.
+Proof.
+  intros Hi Hx. destruct (crop_facts w n_il n_xl Hw) as (R0 & C0 & _ & CC & _ & _). pose proof (win_ok_unpack _ _ _ Hw) as U.
+  unfold zgy_warray, il, xl, arith_lax. cbn [ax_n ax_first ax_last]. rewrite R0, C0, CC.
+  destruct (divmod_row (wx1 w - wx0 w) (i - wi0 w) (x - wx0 w) ltac:(lia)) as [-> ->].
+  change (assocZ 189 zgy_headers_dict) with (Some 2). change (assocZ 193 zgy_headers_dict) with (Some 3).
+  change (nth (Z.to_nat 2) zgy_returns (ZLines true true)) with (ZLines true true).
+  change (nth (Z.to_nat 3) zgy_returns (ZLines true true)) with (ZLines false false).
+  cbn [zsym_elem ax_first ax_last ax_n].
+  replace (wi0 w + (i - wi0 w)) with i by lia. replace (wx0 w + (x - wx0 w)) with x by lia.
+  split; apply LIN; cbn [ax_n]; lia.
+Qed.
+(* the CDP words of the window are the rounded affine expression at the SOURCE position (i, x) *)
+Theorem zgy_window_cdp_arrays i x : wi0 w <= i < wi1 w -> wx0 w <= x < wx1 w ->
+  zgy_warray lin rnd il xl w 181 ((i - wi0 w) * (wx1 w - wx0 w) + (x - wx0 w))
+    = rnd (match nth 0 zgy_returns (ZLines true true) with ZRound e => e | _ => RInt 0 end) i x /\
+  zgy_warray lin rnd il xl w 185 ((i - wi0 w) * (wx1 w - wx0 w) + (x - wx0 w))
+    = rnd (match nth 1 zgy_returns (ZLines true true) with ZRound e => e | _ => RInt 0 end) i x.
+Proof.
+  intros Hi Hx. destruct (crop_facts w n_il n_xl Hw) as (R0 & C0 & _ & CC & _ & _). pose proof (win_ok_unpack _ _ _ Hw) as U.
+  unfold zgy_warray, il, xl, arith_lax. cbn [ax_n ax_first ax_last]. rewrite R0, C0, CC.
+  destruct (divmod_row (wx1 w - wx0 w) (i - wi0 w) (x - wx0 w) ltac:(lia)) as [-> ->].
+  replace (wi0 w + (i - wi0 w)) with i by lia. replace (wx0 w + (x - wx0 w)) with x by lia. split; reflexivity.
+Qed.
+(* one word per window trace = hel / 4 of the header the windowed conversion writes *)
+Theorem zgy_window_array_length :
+  zgy_warray_words il xl w = (wi1 w - wi0 w) * (wx1 w - wx0 w) /\
+  hx_hel_3d (win_nxl w) (win_nil w) = 4 * zgy_warray_words il xl w.
+Proof.
+  destruct (crop_facts w n_il n_xl Hw) as (_ & _ & CR & CC & NI & NX).
+  unfold zgy_warray_words, il, xl, arith_lax. cbn [ax_n]. rewrite CR, CC, NI, NX, hel_3d_eq. split; ring.
+Qed.
+End ZgyArrays.
+
+(* the conversion without a window is the instance (0, n_il, 0, n_xl) *)
+Section ZgyArraysWhole.
+Variable lin : Z -> Z -> Z -> Z -> Z.
+Variable rnd : rfx -> Z -> Z -> Z.
+Hypothesis LIN : lin_exact lin.
+Variables a_il d_il n_il a_xl d_xl n_xl : Z.
+Hypothesis Hnil : 2 <= n_il.
+Hypothesis Hnxl : 2 <= n_xl.
+Let il := arith_lax a_il d_il n_il.
+Let xl := arith_lax a_xl d_xl n_xl.
+Let WH := whole_ok n_il n_xl ltac:(lia) ltac:(lia).
 
 Theorem zgy_line_arrays i x : 0 <= i < n_il -> 0 <= x < n_xl ->
   zgy_array lin rnd il xl 189 (i * n_xl + x) = a_il + d_il * i /\
   zgy_array lin rnd il xl 193 (i * n_xl + x) = a_xl + d_xl * x.
 Proof.
-  intros Hi Hx. unfold zgy_array, il, xl, arith_lax. cbn [ax_n ax_first ax_last]. unfold zgy_grid_cols.
-  destruct (divmod_row n_xl i x Hx) as [-> ->].
-  change (assocZ 189 zgy_headers_dict) with (Some 2). change (assocZ 193 zgy_headers_dict) with (Some 3).
-  change (nth (Z.to_nat 2) zgy_returns (ZLines true true)) with (ZLines true true).
-  change (nth (Z.to_nat 3) zgy_returns (ZLines true true)) with (ZLines false false).
-  cbn [zsym_elem ax_first ax_last ax_n]. split; apply LIN; cbn [ax_n]; lia.
+  intros Hi Hx. destruct WH as (OK & E0 & E1 & E2 & E3).
+  pose proof (zgy_window_line_arrays lin rnd LIN a_il d_il n_il a_xl d_xl n_xl Hnil Hnxl _ OK i x) as T.
+  rewrite E0, E1, E2, E3 in T. unfold zgy_array, il, xl. cbn [arith_lax ax_n].
+  replace ((i - 0) * (n_xl - 0) + (x - 0)) with (i * n_xl + x) in T by ring. apply T; lia.
 Qed.
 Theorem zgy_cdp_arrays i x : 0 <= i < n_il -> 0 <= x < n_xl ->
   zgy_array lin rnd il xl 181 (i * n_xl + x) = rnd (match nth 0 zgy_returns (ZLines true true) with ZRound e => e | _ => RInt 0 end) i x /\
   zgy_array lin rnd il xl 185 (i * n_xl + x) = rnd (match nth 1 zgy_returns (ZLines true true) with ZRound e => e | _ => RInt 0 end) i x.
 Proof.
-  intros Hi Hx. unfold zgy_array, il, xl, arith_lax. cbn [ax_n ax_first ax_last]. unfold zgy_grid_cols.
-  destruct (divmod_row n_xl i x Hx) as [-> ->]. split; reflexivity.
+  intros Hi Hx. destruct WH as (OK & E0 & E1 & E2 & E3).
+  pose proof (zgy_window_cdp_arrays lin rnd a_il d_il n_il a_xl d_xl n_xl _ OK i x) as T.
+  rewrite E0, E1, E2, E3 in T. unfold zgy_array, il, xl. cbn [arith_lax ax_n].
+  replace ((i - 0) * (n_xl - 0) + (x - 0)) with (i * n_xl + x) in T by ring. apply T; lia.
 Qed.
 Theorem zgy_array_length : zgy_array_words il xl = n_il * n_xl.
-Proof. unfold zgy_array_words, il, xl, arith_lax. cbn [ax_n]. unfold zgy_grid_rows, zgy_grid_cols. ring. Qed.
-End ZgyArrays.
+Proof.
+  destruct WH as (OK & E0 & E1 & E2 & E3).
+  pose proof (proj1 (zgy_window_array_length a_il d_il n_il a_xl d_xl n_xl _ OK)) as T.
+  rewrite E0, E1, E2, E3 in T. unfold zgy_array_words, il, xl. cbn [arith_lax ax_n]. rewrite T. ring.
+Qed.
+End ZgyArraysWhole.
 
 (* the CDP expressions as they stand: 100 * (corner0 + row * (corner1 - corner0) / (n_il - 1) + col * (corner2 - corner0) / (n_xl - 1)) *)
 Lemma cdp_exprs_now :
@@ -402,6 +485,38 @@ Proof.
 Qed.
 
 (* ================================================================ 8. composition: what a reader gets back from a ZGY-sourced file *)
+(* trace t of the window is source trace (wi0 + t / gnx, wx0 + t mod gnx), gnx = crosslines of the window *)
+Theorem zgy_window_lines_readback lin rnd fields tv a_il d_il n_il a_xl d_xl n_xl w ndb la t :
+  lin_exact lin -> wf_fields fields = true -> (forall k, In k zgy_keys -> In k fields) ->
+  2 <= n_il -> 2 <= n_xl -> win_ok w n_il n_xl = true -> 0 <= t < (wi1 w - wi0 w) * (wx1 w - wx0 w) ->
+  let arr := zgy_warray lin rnd (arith_lax a_il d_il n_il) (arith_lax a_xl d_xl n_xl) w in
+  let F := zgy_wwrite fields tv arr n_il n_xl w ndb in
+  let gnx := wx1 w - wx0 w in
+  read_field fields F la t 189 = Return (a_il + d_il * (wi0 w + t / gnx)) /\
+  read_field fields F la t 193 = Return (a_xl + d_xl * (wx0 w + t mod gnx)) /\
+  read_field fields F la t 115 = Return (tv TVNSamples) /\
+  read_field fields F la t 117 = Return (tv (TVTrunc (RMul (RInt 1000) RZinc))) /\
+  read_field fields F la t 71 = Return (tv (TVConst (-100))).
+Proof.
+  intros LIN Hwf Hin Hnil Hnxl Hw Ht. cbv zeta.
+  assert (K : forall k, In k [115; 117; 71; 181; 185; 189; 193] -> In k fields).
+  { intros k Hk. apply Hin. unfold zgy_keys. cbn [In] in Hk. vm_compute. tauto. }
+  destruct (crop_facts w n_il n_xl Hw) as (_ & _ & _ & _ & NI & NX). pose proof (win_ok_unpack _ _ _ Hw) as U.
+  set (gnx := wx1 w - wx0 w) in *. set (gni := wi1 w - wi0 w) in *.
+  pose proof (Z.div_mod t gnx ltac:(lia)) as DM. pose proof (Z.mod_pos_bound t gnx ltac:(lia)) as MB.
+  assert (Hi : 0 <= t / gnx < gni).
+  { split; [apply Z.div_pos; lia | apply Z.div_lt_upper_bound; lia]. }
+  rewrite !(zgy_readback fields tv _ n_il n_xl w ndb Hwf Hin Hw) by (try (rewrite NI, NX; fold gni gnx; lia); apply K; cbn [In]; tauto).
+  destruct (zgy_expected_cases tv (zgy_warray lin rnd (arith_lax a_il d_il n_il) (arith_lax a_xl d_xl n_xl) w) t)
+    as (E115 & E117 & E71 & _ & _ & E189 & E193 & _).
+  rewrite E115, E117, E71, E189, E193.
+  destruct (zgy_window_line_arrays lin rnd LIN a_il d_il n_il a_xl d_xl n_xl Hnil Hnxl w Hw (wi0 w + t / gnx) (wx0 w + t mod gnx)
+              ltac:(fold gni; lia) ltac:(fold gnx; lia)) as [L1 L2].
+  fold gnx in L1, L2.
+  replace ((wi0 w + t / gnx - wi0 w) * gnx + (wx0 w + t mod gnx - wx0 w)) with t in L1, L2 by lia. rewrite L1, L2.
+  repeat split; reflexivity.
+Qed.
+
 Theorem zgy_lines_readback lin rnd fields tv a_il d_il n_il a_xl d_xl n_xl ndb la t :
   lin_exact lin -> wf_fields fields = true -> (forall k, In k zgy_keys -> In k fields) ->
   2 <= n_il -> 2 <= n_xl -> 0 <= t < n_il * n_xl ->
@@ -414,16 +529,8 @@ Theorem zgy_lines_readback lin rnd fields tv a_il d_il n_il a_xl d_xl n_xl ndb l
   read_field fields F la t 71 = Return (tv (TVConst (-100))).
 Proof.
   intros LIN Hwf Hin Hnil Hnxl Ht. cbv zeta.
-  assert (K : forall k, In k [115; 117; 71; 181; 185; 189; 193] -> In k fields).
-  { intros k Hk. apply Hin. unfold zgy_keys. cbn [In] in Hk. vm_compute. tauto. }
-  pose proof (Z.div_mod t n_xl ltac:(lia)) as DM. pose proof (Z.mod_pos_bound t n_xl ltac:(lia)) as MB.
-  assert (Hi : 0 <= t / n_xl < n_il).
-  { split; [apply Z.div_pos; lia | apply Z.div_lt_upper_bound; lia]. }
-  rewrite !zgy_readback by (try assumption; try lia; apply K; cbn [In]; tauto).
-  destruct (zgy_expected_cases tv (zgy_array lin rnd (arith_lax a_il d_il n_il) (arith_lax a_xl d_xl n_xl)) t)
-    as (E115 & E117 & E71 & _ & _ & E189 & E193 & _).
-  rewrite E115, E117, E71, E189, E193.
-  destruct (zgy_line_arrays lin rnd LIN a_il d_il n_il a_xl d_xl n_xl Hnil Hnxl (t / n_xl) (t mod n_xl) Hi MB) as [L1 L2].
-  replace ((t / n_xl) * n_xl + t mod n_xl) with t in L1, L2 by lia. rewrite L1, L2.
-  repeat split; reflexivity.
+  destruct (whole_ok n_il n_xl ltac:(lia) ltac:(lia)) as (OK & E0 & E1 & E2 & E3).
+  pose proof (zgy_window_lines_readback lin rnd fields tv a_il d_il n_il a_xl d_xl n_xl (whole n_il n_xl) ndb la t LIN Hwf Hin Hnil Hnxl OK) as T.
+  cbv zeta in T. rewrite E0, E1, E2, E3 in T. rewrite !Z.sub_0_r, !Z.add_0_l in T.
+  unfold zgy_array, zgy_write. cbn [arith_lax ax_n]. apply T. exact Ht.
 Qed.
